@@ -255,7 +255,7 @@ impl<
                         crate::verif::emit(|| crate::verif::Event::Note("cleanup_key", *k as i64));
                         self.expiration(k)
                             .and_then(|t| {
-                                if t.is_expired() {
+                                if !t.is_zero() && t.is_expired() {
                                     let cost = policy.cost(k);
                                     policy.remove(k);
                                     self.try_remove(k, *v)
@@ -296,7 +296,7 @@ impl<
                 crate::verif::emit(|| crate::verif::Event::Note("cleanup_key", *k as i64));
                 let expiration = self.expiration(k);
                 if let Some(t) = expiration {
-                    if t.is_expired() {
+                    if !t.is_zero() && t.is_expired() {
                         let cost = policy.cost(k);
                         policy.remove(k);
                         let removed_item = self.try_remove(k, *v)?;
